@@ -21,7 +21,7 @@ from ..common import safe_repr
 from ..runner import Acc, parallel
 from ..terms import fp
 
-DEPTH = {"quick": (2, 3), "thorough": (3, 4)}   # (all sequences, sequences with a special event)
+DEPTH = {"quick": (2, 3), "thorough": (2, 3)}   # (all sequences, deepest level; see sequences())
 PROBES = [None, 0, 7, "a", "ab", [0], [0, "a"], {"a": 0}, {"a": 0, "b": "a"}, [], {}, 1.5]
 VALS = {"v_int": 0, "v_list": [0, "a"], "v_dict": {"a": 0}, "v_bad": [None],
         # values that are == (and hash alike) but of different kinds: forced collisions for any
@@ -405,17 +405,36 @@ ZYGOTE = None
 ASKED = {}
 
 
+MINI = [("repr", 2), ("repr", 3), ("gen", 3), ("validate", 3, "v_dict"), ("subst", 3, "v_dict"),
+        ("add", 3, 3), ("or", 2, 4), ("mkreq", 3, None), ("refine_ok", 3), ("refine_fail", 3),
+        ("iter", 3), ("from_native", "V0"), ("eq", 3, 3), ("subst_untyped", "v_one_list"),
+        ("from_native_v", "v_fzero"), ("from_native_v", "v_false"), ("second_instances",),
+        ("subst", 5, "E0"), ("refine_fail_last",)]
+
+
 def sequences(tier):
+    """quick: every sequence up to depth 2; depth 3 over the core alphabet if it contains a
+    mutation / failing event.  thorough: EVERY sequence up to depth 3 over the full alphabet, and
+    depth 4 over a mini alphabet (one event per operation kind on the caller-owned list / dict
+    members, the colliding from_native values, second instances, every mutation) when it
+    contains a mutation / failing event.  Depth 4 over the full alphabet (2.7e8) is out of reach."""
     EV = events()
     CORE = core_events()
-    d_all, d_special = DEPTH[tier]
-    for d in range(1, d_all + 1):
+    core_set = set(CORE)
+    for d in (1, 2):
         for seq in itertools.product(EV, repeat=d):
             yield seq
-    for d in range(d_all + 1, d_special + 1):
-        for seq in itertools.product(CORE, repeat=d):
+    if tier != "thorough":
+        for seq in itertools.product(CORE, repeat=3):
             if any(is_special(e) for e in seq):
                 yield seq
+        return
+    for seq in itertools.product(EV, repeat=3):
+        yield seq
+    mini = [e for e in MINI if e in set(EV)] + [e for e in EV if e[0] == "mut"]
+    for seq in itertools.product(mini, repeat=4):
+        if any(is_special(e) for e in seq):
+            yield seq
 
 
 def worker(shard, nshards, tier, seed):
@@ -424,6 +443,9 @@ def worker(shard, nshards, tier, seed):
     global ZYGOTE
     if ZYGOTE is None:
         ZYGOTE = Zygote(seed)          # forked while this process is still pristine
+    if not MEMO:
+        # a shard re-run in a fresh interpreter (context replay): same references as the main run
+        MEMO.update(pristine_references(seed))
     with e2.installed(rng):
         e2.self_test(rng)
         for i, seq in enumerate(sequences(tier)):
@@ -486,9 +508,12 @@ def run(tier, seed):
         "traces_validated_against_impl": acc.n["histories"],
         "evaluations": acc.n["histories"],
         "distinct_nontrivial": acc.n["histories_with_mutation_or_failure"],
-        "rule": f"all sequences over {len(events())} events up to depth {DEPTH[tier][0]}, plus depth "
-                f"{DEPTH[tier][1]} sequences containing a caller mutation or a failing operation; each "
-                "replayed from a fresh pool; non-trivial = contains a mutation/failing event",
+        "rule": (f"all sequences over {len(events())} events up to depth 2, plus depth 3 over the "
+                 f"{len(core_events())}-event core alphabet when they contain a caller mutation or a "
+                 "failing operation" if tier != "thorough" else
+                 f"all sequences over {len(events())} events up to depth 3, plus depth 4 over a mini "
+                 "alphabet when they contain a caller mutation or a failing operation")
+                + "; each replayed from a fresh pool; non-trivial = contains a mutation/failing event",
         "exhaustive": True,
         "bounds": {"tier": tier, "events": len(events()), "core_events": len(core_events()), "depth_all": DEPTH[tier][0],
                    "depth_special": DEPTH[tier][1], "memo_entries": acc.n["memo_entries"],
